@@ -113,7 +113,8 @@ def iosStr (ios : List (Nat × Nat)) : String :=
 def sreadCalls (dev : Dev) (devSize bs : Nat) (es : List Extent) (size : Nat) : List Nat → Nat → List String → List String × Nat
   | [], off, acc => (acc.reverse, off)
   | n :: ns, off, acc =>
-    match sparseRead dev devSize bs es size off n with
+    -- File.Read as the tree has it: with or without the guard `if leftInExtent < 0 { continue }` (regenerated)
+    match sparseReadC Diskfs.Generated.Ext4Ref.readSkipsExtentBefore dev devSize bs es size off n with
     | .ok r => sreadCalls dev devSize bs es size ns r.off
         (s!"{r.data.length}:{if r.eof then 1 else 0}:{fnv r.data}:{iosStr r.ios}" :: acc)
     | .ioerr k o => ((s!"err:{k}" :: acc).reverse, o)
